@@ -328,7 +328,20 @@ where
     fn poll(mut self: Pin<&mut Self>, cx: &mut Context<'_>) -> Poll<Self::Output> {
         let this = &mut *self;
         let (b, i) = (this.b, this.i);
-        let r = catch_unwind(AssertUnwindSafe(|| this.f.as_mut().expect("probe future polled after completion").as_mut().poll(cx)));
+        // the future of the layer below lives in the frame of the layer above: a panic drops it while unwinding
+        struct FrameOwned<'a, F>(&'a mut Option<Pin<Box<F>>>);
+        impl<F> Drop for FrameOwned<'_, F> {
+            fn drop(&mut self) {
+                if std::thread::panicking() {
+                    drop(self.0.take());
+                }
+            }
+        }
+        let slot = &mut this.f;
+        let r = catch_unwind(AssertUnwindSafe(|| {
+            let g = FrameOwned(slot);
+            g.0.as_mut().expect("probe future polled after completion").as_mut().poll(cx)
+        }));
         let mut m = Sim::ev("poll");
         m.insert("c".into(), json!(i));
         match r {
